@@ -810,6 +810,19 @@ class Engine:
 
     def const_value(self, mi, expr, st):
         """module/class-level constant: literals, simple arithmetic, names of other constants"""
+        if isinstance(expr, ast.Call) and isinstance(expr.func, ast.Name) and self._is_repo_class(expr.func.id):
+            # an object built ONCE when the module is imported and shared by every reader (e.g. a class attribute
+            # `_parser = TokenParser()`): it exists before the verified call -- never fresh, and its fields are
+            # whatever earlier users left there
+            cname = expr.func.id
+            t = z3.Int("modconst!%s!%d" % (cname, expr.lineno))
+            entry = self.frames[0].old.alloc if self.frames and getattr(self.frames[0], "old", None) is not None else st.alloc
+            self.add_axiom(z3.And(t >= 1, t <= entry))
+            v = V(Kind("ref", cname), t)
+            tc = self.type_constraint(v)
+            if tc is not None:
+                self.add_axiom(tc)
+            return v
         saved = self.frames
         fr = Frame(mi, None, None, mi.name + ":<const>")
         self.frames = saved + [fr]
@@ -820,6 +833,13 @@ class Engine:
         if len(outs) != 1 or outs[0].tag != "ok":
             raise Unsupported("non-trivial module constant")
         return outs[0].val
+
+    def _is_repo_class(self, name):
+        try:
+            self.P.find_class(name)
+            return True
+        except frontend.MissingTarget:
+            return False
 
     def e_Attribute(self, node, st):
         return self.bind(self.eval(node.value, st), lambda s, b: self.getattr_(s, b, node.attr, node))
